@@ -59,6 +59,7 @@ Variables (h0 h1 h2 h3 : N) (l : laf) (pay : bytes).
 Hypothesis Hwf : wf_laf l.
 Hypothesis Hfits : fits l.
 Hypothesis Hh3 : bit h3 32 = true.
+Hypothesis Hpay : len pay = 183 - l_len l.
 Notation L := (l_len l).
 Notation St := (stuff l).
 Notation p := (cpk h0 h1 h2 h3 l pay).
@@ -387,6 +388,176 @@ Proof. unfold SetHasSplicingPoint. rewrite valid_p. cbn [bind]. rewrite scs_p.
     split; [apply (rel_any _ [0]); [reflexivity|apply zeros1|discriminate|cbn [spec_step]; rewrite EL; reflexivity]|].
     split; [|split; [exact Hwf|split; [exact Hfits|reflexivity]]].
     unfold cpk at 1. rewrite set_bit_pk5. fl8_at 5%nat false.
+    apply recanon; try reflexivity. rewrite flags_fl8, E. reflexivity.
+Qed.
+
+(* ---- variable-size fields ---- *)
+Lemma shrink_at' Pre D Suf delta : body l = Pre ++ D ++ Suf -> 0 < len D -> delta = (- Z.of_N (len D))%Z ->
+  resizeAF p (6 + len Pre) delta =
+    Ok (pk h0 h1 h2 h3 L (flags l) (Pre ++ Suf ++ repeatN 255 (len D) ++ St ++ pay)).
+Proof. intros HB HD ->. destruct (len D) as [|q] eqn:EQ; [lia|]. cbn [Z.of_N Z.opp].
+  exact (shrink_at Pre D Suf q HB EQ). Qed.
+Lemma grow_at' Pre Suf d delta : body l = Pre ++ Suf -> 0 < d -> delta = Z.of_N d ->
+  resizeAF p (6 + len Pre) delta =
+    if L - content_len l <? d then Err E.AdaptationFieldCannotGrow
+    else Ok (pk h0 h1 h2 h3 L (flags l) (Pre ++ takeN d (Suf ++ St) ++ Suf ++ dropN d St ++ pay)).
+Proof. intros HB HD ->. destruct d as [|q]; [lia|]. cbn [Z.of_N]. apply grow_at; assumption. Qed.
+
+Lemma tps_indep fl r1 r2 : transportPrivateDataStart (pk h0 h1 h2 h3 L fl r1) = transportPrivateDataStart (pk h0 h1 h2 h3 L fl r2).
+Proof. reflexivity. Qed.
+
+Lemma hastpd_ok v : ok_out h0 h1 h2 h3 pay l (OSetHasTPD v) (SetHasTransportPrivateData p v).
+Proof. unfold SetHasTransportPrivateData. rewrite valid_p. cbn [bind]. rewrite tps_p, tpl_p.
+  replace (6 + len Fp + len Fo + len Fs) with (6 + len (Fp ++ Fo ++ Fs)) by (rewrite !len_app; lia).
+  unfold bit_delta. destruct has_l as (_ & _ & _ & HP & _). unfold hasTransportPrivateData in HP. rewrite HP. clear HP.
+  pose proof Hwf as (WL & WP & WO & WS & WT & WE). pose proof Hfits as F. unfold fits in F.
+  destruct v, (l_tpd l) as [d|] eqn:E; cbn [isSome Bool.eqb].
+  - change (1 * 0)%Z with 0%Z. cbn [Z.ltb Z.compare]. rewrite zero_at. cbn [bind ok_out]. exists l.
+    split; [apply rel_nojunk; [reflexivity|discriminate|cbn [spec_step]; rewrite E; reflexivity]|].
+    split; [|split; [exact Hwf|split; [exact Hfits|reflexivity]]].
+    unfold cpk at 1. rewrite set_bit_pk5. fl8_at 6%nat true.
+    apply recanon; try reflexivity. rewrite flags_fl8, E. reflexivity.
+  - change (1 * 1)%Z with 1%Z. cbn [Z.ltb Z.compare].
+    assert (HB: body l = (Fp ++ Fo ++ Fs) ++ Fe) by (unfold body; rewrite E; cbn [encv app]; rewrite <- !app_assoc; reflexivity).
+    rewrite (grow_at (Fp ++ Fo ++ Fs) Fe 1 HB).
+    assert (CL: content_len (set_tpd l (Some [])) = content_len l + 1).
+    { rewrite !content_len_eq. cbn [set_tpd l_pcr l_opcr l_splice l_tpd l_ext encv]. rewrite E. cbn [encv].
+      rewrite ?len_cons, ?len_nil. lia. }
+    destruct (N.ltb_spec (L - content_len l) 1) as [T|T].
+    + cbn [bind ok_out]. apply rel_nojunk; [reflexivity|discriminate|].
+      cbn [spec_step]. rewrite E. cbn [isSome]. unfold grow. rewrite fitsb_false; [reflexivity|].
+      rewrite CL. cbn [set_tpd l_len]. lia.
+    + cbn [bind ok_out]. set (u := takeN 1 (Fe ++ St)).
+      assert (Lu: len u = 1). { unfold u. apply len_takeN. rewrite len_app, len_St. lia. }
+      assert (Eu: exists x, u = [x]) by (eexists; apply one_elt; exact Lu).
+      destruct Eu as [x Eu]. clearbody u. subst u.
+      assert (F': fits (set_tpd l (Some []))). { unfold fits. rewrite CL. cbn [set_tpd l_len]. lia. }
+      exists (set_tpd l (Some [])).
+      split; [apply rel_nojunk; [reflexivity|discriminate|]; cbn [spec_step]; rewrite E; cbn [isSome];
+              unfold grow; rewrite fitsb_true by exact F'; reflexivity|].
+      split; [|split; [|split; [exact F'|reflexivity]]].
+      * rewrite (tps_indep _ _ (body l ++ St ++ pay)). fold (cpk h0 h1 h2 h3 l pay). rewrite tps_p.
+        rewrite pk_H6.
+        replace (H6 h0 h1 h2 h3 L (flags l) ++ (Fp ++ Fo ++ Fs) ++ [x] ++ Fe ++ dropN 1 St ++ pay)
+          with ((H6 h0 h1 h2 h3 L (flags l) ++ Fp ++ Fo ++ Fs) ++ x :: (Fe ++ dropN 1 St ++ pay))
+          by (rewrite <- !app_assoc; reflexivity).
+        rewrite upd_at by (rewrite !len_app, len_H6; lia).
+        replace ((H6 h0 h1 h2 h3 L (flags l) ++ Fp ++ Fo ++ Fs) ++ 0 :: Fe ++ dropN 1 St ++ pay)
+          with (pk h0 h1 h2 h3 L (flags l) ((Fp ++ Fo ++ Fs ++ [0] ++ Fe) ++ dropN 1 St ++ pay))
+          by (rewrite pk_H6, <- !app_assoc; reflexivity).
+        rewrite set_bit_pk5. fl8_at 6%nat true. unfold stuff at 1. rewrite dropN_repeatN.
+        apply recanon; try reflexivity. rewrite CL. cbn [set_tpd l_len]. lia.
+      * unfold wf_laf. cbn [set_tpd l_pcr l_opcr l_splice l_tpd l_ext l_len opt_bytes].
+        repeat split; try assumption; try lia; try apply WP; try apply WO. constructor.
+  - change (1 * -1)%Z with (-1)%Z. cbn [Z.ltb Z.compare]. cbn [encv].
+    assert (LD: 0 < len (len d :: d)) by (rewrite len_cons; lia).
+    rewrite (shrink_at' (Fp ++ Fo ++ Fs) (len d :: d) Fe).
+    2:{ unfold body. rewrite E. cbn [encv]. rewrite <- !app_assoc. reflexivity. }
+    2:{ exact LD. }
+    2:{ reflexivity. }
+    replace (0 <? - Z.of_N (len (len d :: d)))%Z with false by (symmetry; apply Z.ltb_ge; lia).
+    cbn [bind ok_out]. exists (set_tpd l None).
+    assert (CL: content_len l = content_len (set_tpd l None) + len (len d :: d)).
+    { rewrite !content_len_eq. cbn [set_tpd l_pcr l_opcr l_splice l_tpd l_ext encv]. rewrite E. cbn [encv].
+      rewrite len_nil. lia. }
+    assert (F': fits (set_tpd l None)). { unfold fits. cbn [set_tpd l_len]. lia. }
+    split; [apply rel_nojunk; [reflexivity|discriminate|reflexivity]|].
+    split; [|split; [|split; [exact F'|reflexivity]]].
+    * rewrite set_bit_pk5. fl8_at 6%nat false. unfold stuff.
+      rewrite (app_assoc (repeatN 255 _)), <- repeatN_add.
+      replace ((Fp ++ Fo ++ Fs) ++ Fe ++ repeatN 255 (len (len d :: d) + (L - content_len l)) ++ pay)
+        with ((Fp ++ Fo ++ Fs ++ [] ++ Fe) ++ repeatN 255 (len (len d :: d) + (L - content_len l)) ++ pay)
+        by (cbn [app]; rewrite <- !app_assoc; reflexivity).
+      apply recanon; try reflexivity. cbn [set_tpd l_len]. lia.
+    * unfold wf_laf. cbn [set_tpd l_pcr l_opcr l_splice l_tpd l_ext l_len opt_bytes].
+      repeat split; try assumption; try lia; try apply WP; try apply WO.
+  - change (1 * 0)%Z with 0%Z. cbn [Z.ltb Z.compare]. rewrite zero_at. cbn [bind ok_out]. exists l.
+    assert (EL: set_tpd l None = l). { destruct l; cbn in *. rewrite E. reflexivity. }
+    split; [apply rel_nojunk; [reflexivity|discriminate|cbn [spec_step]; rewrite EL; reflexivity]|].
+    split; [|split; [exact Hwf|split; [exact Hfits|reflexivity]]].
+    unfold cpk at 1. rewrite set_bit_pk5. fl8_at 6%nat false.
+    apply recanon; try reflexivity. rewrite flags_fl8, E. reflexivity.
+Qed.
+
+Lemma len_pk fl rest : len (pk h0 h1 h2 h3 L fl rest) = 6 + len rest.
+Proof. unfold pk. rewrite !len_cons. lia. Qed.
+
+Lemma hasext_ok v : ok_out h0 h1 h2 h3 pay l (OSetHasExt v) (SetHasAdaptationFieldExtension p v).
+Proof. unfold SetHasAdaptationFieldExtension. rewrite valid_p. cbn [bind]. rewrite exs_p, exl_p.
+  replace (6 + len Fp + len Fo + len Fs + len Ft) with (6 + len (Fp ++ Fo ++ Fs ++ Ft)) by (rewrite !len_app; lia).
+  unfold bit_delta. destruct has_l as (_ & _ & _ & _ & HP & _). unfold hasAdaptationFieldExtension in HP. rewrite HP. clear HP.
+  pose proof Hwf as (WL & WP & WO & WS & WT & WE). pose proof Hfits as F. unfold fits in F.
+  destruct v, (l_ext l) as [d|] eqn:E; cbn [isSome Bool.eqb].
+  - change (1 * 0)%Z with 0%Z. cbn [Z.ltb Z.compare]. rewrite zero_at. cbn [bind ok_out]. exists l.
+    split; [apply rel_nojunk; [reflexivity|discriminate|cbn [spec_step]; rewrite E; reflexivity]|].
+    split; [|split; [exact Hwf|split; [exact Hfits|reflexivity]]].
+    unfold cpk at 1. rewrite set_bit_pk5. fl8_at 7%nat true.
+    apply recanon; try reflexivity. rewrite flags_fl8, E. reflexivity.
+  - change (1 * 1)%Z with 1%Z. cbn [Z.ltb Z.compare].
+    assert (HB: body l = (Fp ++ Fo ++ Fs ++ Ft) ++ []) by (unfold body; rewrite E; cbn [encv]; rewrite <- !app_assoc; reflexivity).
+    rewrite (grow_at (Fp ++ Fo ++ Fs ++ Ft) [] 1 HB).
+    assert (CL: content_len (set_ext l (Some [])) = content_len l + 1).
+    { rewrite !content_len_eq. cbn [set_ext l_pcr l_opcr l_splice l_tpd l_ext encv]. rewrite E. cbn [encv].
+      rewrite ?len_cons, ?len_nil. lia. }
+    destruct (N.ltb_spec (L - content_len l) 1) as [T|T].
+    + cbn [bind ok_out]. apply rel_nojunk; [reflexivity|discriminate|].
+      cbn [spec_step]. rewrite E. cbn [isSome]. unfold grow. rewrite fitsb_false; [reflexivity|].
+      rewrite CL. cbn [set_ext l_len]. lia.
+    + cbn [bind app]. set (u := takeN 1 St).
+      assert (Lu: len u = 1). { unfold u. apply len_takeN. rewrite len_St. lia. }
+      assert (Eu: exists x, u = [x]) by (eexists; apply one_elt; exact Lu).
+      destruct Eu as [x Eu]. clearbody u. subst u.
+      assert (F': fits (set_ext l (Some []))). { unfold fits. rewrite CL. cbn [set_ext l_len]. lia. }
+      replace ((Fp ++ Fo ++ Fs ++ Ft) ++ [x] ++ dropN 1 St ++ pay) with (body l ++ ([x] ++ dropN 1 St ++ pay))
+        by (rewrite HB, <- !app_assoc; reflexivity).
+      rewrite (extStart_p h0 h1 h2 h3 l ([x] ++ dropN 1 St ++ pay) Hpcr Hopcr) by apply Hroom.
+      unfold set_idx. rewrite len_pk, !len_app, len_dropN, len_St.
+      replace (6 + len Fp + len Fo + len Fs + len Ft <? 6 + (len (body l) + (len [x] + (L - content_len l - 1 + len pay)))) with true.
+      2:{ symmetry. apply N.ltb_lt. rewrite HB, !len_app. change (len [x]) with 1. lia. }
+      cbn [bind ok_out].
+      exists (set_ext l (Some [])).
+      split; [apply rel_nojunk; [reflexivity|discriminate|]; cbn [spec_step]; rewrite E; cbn [isSome];
+              unfold grow; rewrite fitsb_true by exact F'; reflexivity|].
+      split; [|split; [|split; [exact F'|reflexivity]]].
+      * rewrite pk_H6, HB.
+        replace (H6 h0 h1 h2 h3 L (flags l) ++ ((Fp ++ Fo ++ Fs ++ Ft) ++ []) ++ [x] ++ dropN 1 St ++ pay)
+          with ((H6 h0 h1 h2 h3 L (flags l) ++ Fp ++ Fo ++ Fs ++ Ft) ++ x :: (dropN 1 St ++ pay))
+          by (rewrite <- !app_assoc; reflexivity).
+        rewrite upd_at by (rewrite !len_app, len_H6; lia).
+        replace ((H6 h0 h1 h2 h3 L (flags l) ++ Fp ++ Fo ++ Fs ++ Ft) ++ 0 :: dropN 1 St ++ pay)
+          with (pk h0 h1 h2 h3 L (flags l) ((Fp ++ Fo ++ Fs ++ Ft ++ [0]) ++ dropN 1 St ++ pay))
+          by (rewrite pk_H6, <- !app_assoc; reflexivity).
+        rewrite set_bit_pk5. fl8_at 7%nat true. unfold stuff at 1. rewrite dropN_repeatN.
+        apply recanon; try reflexivity. rewrite CL. cbn [set_ext l_len]. lia.
+      * unfold wf_laf. cbn [set_ext l_pcr l_opcr l_splice l_tpd l_ext l_len opt_bytes].
+        repeat split; try assumption; try lia; try apply WP; try apply WO. constructor.
+  - change (1 * -1)%Z with (-1)%Z. cbn [Z.ltb Z.compare]. cbn [encv].
+    assert (LD: 0 < len (len d :: d)) by (rewrite len_cons; lia).
+    rewrite (shrink_at' (Fp ++ Fo ++ Fs ++ Ft) (len d :: d) []).
+    2:{ unfold body. rewrite E. cbn [encv]. rewrite <- !app_assoc, app_nil_r. reflexivity. }
+    2:{ exact LD. }
+    2:{ reflexivity. }
+    replace (0 <? - Z.of_N (len (len d :: d)))%Z with false by (symmetry; apply Z.ltb_ge; lia).
+    cbn [bind ok_out]. exists (set_ext l None).
+    assert (CL: content_len l = content_len (set_ext l None) + len (len d :: d)).
+    { rewrite !content_len_eq. cbn [set_ext l_pcr l_opcr l_splice l_tpd l_ext encv]. rewrite E. cbn [encv].
+      rewrite len_nil. lia. }
+    assert (F': fits (set_ext l None)). { unfold fits. cbn [set_ext l_len]. lia. }
+    split; [apply rel_nojunk; [reflexivity|discriminate|reflexivity]|].
+    split; [|split; [|split; [exact F'|reflexivity]]].
+    * rewrite set_bit_pk5. fl8_at 7%nat false. unfold stuff. cbn [app].
+      rewrite (app_assoc (repeatN 255 _)), <- repeatN_add.
+      replace ((Fp ++ Fo ++ Fs ++ Ft) ++ repeatN 255 (len (len d :: d) + (L - content_len l)) ++ pay)
+        with ((Fp ++ Fo ++ Fs ++ Ft ++ []) ++ repeatN 255 (len (len d :: d) + (L - content_len l)) ++ pay)
+        by (rewrite <- !app_assoc; reflexivity).
+      apply recanon; try reflexivity. cbn [set_ext l_len]. lia.
+    * unfold wf_laf. cbn [set_ext l_pcr l_opcr l_splice l_tpd l_ext l_len opt_bytes].
+      repeat split; try assumption; try lia; try apply WP; try apply WO.
+  - change (1 * 0)%Z with 0%Z. cbn [Z.ltb Z.compare]. rewrite zero_at. cbn [bind ok_out]. exists l.
+    assert (EL: set_ext l None = l). { destruct l; cbn in *. rewrite E. reflexivity. }
+    split; [apply rel_nojunk; [reflexivity|discriminate|cbn [spec_step]; rewrite EL; reflexivity]|].
+    split; [|split; [exact Hwf|split; [exact Hfits|reflexivity]]].
+    unfold cpk at 1. rewrite set_bit_pk5. fl8_at 7%nat false.
     apply recanon; try reflexivity. rewrite flags_fl8, E. reflexivity.
 Qed.
 End Setters.
